@@ -51,6 +51,9 @@ unsafe impl<L: Lockable> RawLock for RetryingLockCollection<L> {
 
 		// these will be unlocked in case of a panic
 		let first_index = Cell::new(0);
+		// whether locks[first_index] is locked by us
+		let first_locked = Cell::new(false);
+		// every lock before this index is locked by us
 		let locked = Cell::new(0);
 		handle_unwind(
 			|| unsafe {
@@ -59,6 +62,7 @@ unsafe impl<L: Lockable> RawLock for RetryingLockCollection<L> {
 					// the same lock to be unlocked
 					// safety: we have the thread key
 					locks[first_index.get()].raw_write();
+					first_locked.set(true);
 					for (i, lock) in locks.iter().enumerate() {
 						if i == first_index.get() {
 							// we've already locked this one
@@ -71,18 +75,19 @@ unsafe impl<L: Lockable> RawLock for RetryingLockCollection<L> {
 						// immediately after, causing a panic
 						// safety: we have the thread key
 						if lock.raw_try_write() {
-							locked.set(locked.get() + 1);
+							locked.set(i + 1);
 						} else {
+							// nothing counts as locked during the rollback, so
+							// that a panicking unlock can't cause a second unlock
+							locked.set(0);
+							first_locked.set(first_index.get() >= i);
 							// safety: we already locked all of these
 							attempt_to_recover_writes_from_panic(&locks[0..i]);
-							if first_index.get() >= i {
+							if first_locked.replace(false) {
 								// safety: this is already locked and can't be
 								//         unlocked by the previous loop
 								locks[first_index.get()].raw_unlock_write();
 							}
-
-							// nothing is locked anymore
-							locked.set(0);
 
 							// call lock on this to prevent a spin loop
 							first_index.set(i);
@@ -95,10 +100,11 @@ unsafe impl<L: Lockable> RawLock for RetryingLockCollection<L> {
 				}
 			},
 			|| {
-				utils::attempt_to_recover_writes_from_panic(&locks[0..locked.get()]);
-				if first_index.get() >= locked.get() {
-					locks[first_index.get()].raw_unlock_write();
+				let mut held = locks[0..locked.get()].to_vec();
+				if first_locked.get() && first_index.get() >= locked.get() {
+					held.push(locks[first_index.get()]);
 				}
+				utils::attempt_to_recover_writes_from_panic(&held);
 			},
 		)
 	}
@@ -150,12 +156,16 @@ unsafe impl<L: Lockable> RawLock for RetryingLockCollection<L> {
 			return;
 		}
 
-		let locked = Cell::new(0);
 		let first_index = Cell::new(0);
+		// whether locks[first_index] is locked by us
+		let first_locked = Cell::new(false);
+		// every lock before this index is locked by us
+		let locked = Cell::new(0);
 		handle_unwind(
 			|| 'outer: loop {
 				// safety: we have the thread key
 				locks[first_index.get()].raw_read();
+				first_locked.set(true);
 				for (i, lock) in locks.iter().enumerate() {
 					if i == first_index.get() {
 						continue;
@@ -163,19 +173,20 @@ unsafe impl<L: Lockable> RawLock for RetryingLockCollection<L> {
 
 					// safety: we have the thread key
 					if lock.raw_try_read() {
-						locked.set(locked.get() + 1);
+						locked.set(i + 1);
 					} else {
+						// nothing counts as locked during the rollback, so
+						// that a panicking unlock can't cause a second unlock
+						locked.set(0);
+						first_locked.set(first_index.get() >= i);
 						// safety: we already locked all of these
 						attempt_to_recover_reads_from_panic(&locks[0..i]);
 
-						if first_index.get() >= i {
+						if first_locked.replace(false) {
 							// safety: this is already locked and can't be unlocked
 							//         by the previous loop
 							locks[first_index.get()].raw_unlock_read();
 						}
-
-						// these are no longer locked
-						locked.set(0);
 
 						// don't go into a spin loop, wait for this one to lock
 						first_index.set(i);
@@ -187,10 +198,11 @@ unsafe impl<L: Lockable> RawLock for RetryingLockCollection<L> {
 				break;
 			},
 			|| {
-				utils::attempt_to_recover_reads_from_panic(&locks[0..locked.get()]);
-				if first_index.get() >= locked.get() {
-					locks[first_index.get()].raw_unlock_read();
+				let mut held = locks[0..locked.get()].to_vec();
+				if first_locked.get() && first_index.get() >= locked.get() {
+					held.push(locks[first_index.get()]);
 				}
+				utils::attempt_to_recover_reads_from_panic(&held);
 			},
 		)
 	}
